@@ -32,7 +32,7 @@ META = {
 }
 
 OPS = ["M_UNSPEC", "M_EQ", "M_NE", "M_NOT_PRESENT", "M_PREFIX", "M_GT", "M_GE", "M_LT", "M_LE"]
-PRELUDE = ("From NV Require Import S256.S256Check Search.Search Search.SearchCheck Search.Merge Search.MergeCheck.\n"
+PRELUDE = ("From NV Require Import S256.S256Check Search.Search Search.SearchCheck Search.Merge Search.MergeLoop Search.MergeCheck.\n"
            "From Coq Require Import List NArith ZArith. Import ListNotations.\nLocal Open Scope N_scope.\n")
 
 
@@ -46,14 +46,94 @@ def lit_cursor(c):
                                                 vlib.coq_bool(c["kind"] == "int"), cur, vlib.coq_bool(c["accepted"]))
 
 
-def lit_mitem(m):
-    return "(MItem %s %s)" % (lb(m["id"]), lb(m["raw"]))
+class Intern:
+    """byte strings get a name once per coqc job (keeps the literals small)"""
+    def __init__(self):
+        self.names = {}
+
+    def lb(self, h):
+        if len(h) <= 8:
+            return lb(h)
+        if h not in self.names:
+            self.names[h] = "b_%d" % len(self.names)
+        return self.names[h]
+
+    def defs(self):
+        return "".join("Definition %s := Eval vm_compute in %s.\n" % (n, lb(h)) for h, n in self.names.items())
 
 
-def lit_merge(c):
-    return "(MCase %d %s %s %s %s %s %s)" % (
-        c["lim"], vlib.coq_list(c["sets"], lambda s: vlib.coq_list(s, lit_mitem)), vlib.coq_list(c["mores"], vlib.coq_bool),
-        vlib.coq_bool(c["class"] == "sorted"), vlib.coq_bool(c["err"]), vlib.coq_list(c["res"], lit_mitem), vlib.coq_bool(c["more"]))
+def lit_ritem(I, m):
+    return "(RItem %s %s)" % (I.lb(m["id"]), I.lb(m["text"]))
+
+
+def lit_loop(I, c):
+    items = [m for s in (c["sets"] + (c["fulls"] or [])) for m in s]
+    dec = sorted({(m["text"], m["raw"]) for m in items if m.get("dec")})
+    cat = sorted({(m["id"], m["raw"]) for s in (c["fulls"] or []) for m in s})
+    obs = "None" if c["err"] else "(Some (%s, %s))" % (vlib.coq_list(c["res"], lambda m: lit_ritem(I, m)), vlib.coq_bool(c["more"]))
+    pair = lambda p: "(%s, %s)" % (I.lb(p[0]), I.lb(p[1]))
+    sets = lambda ss: vlib.coq_list(ss or [], lambda s_: vlib.coq_list(s_, lambda m: lit_ritem(I, m)))
+    return "(LCase %d %s %s %s %s %s %s %s %s %s)" % (
+        c["lim"], I.lb(c["attr"]), vlib.coq_bool(c["cmpint"]), vlib.coq_list(dec, pair), vlib.coq_list(cat, pair),
+        vlib.coq_bool(c["class"] == "pages"), sets(c["fulls"]), sets(c["sets"]), vlib.coq_list(c["mores"], vlib.coq_bool), obs)
+
+
+B58 = "123456789ABCDEFGHJKLMNPQRSTUVWXYZabcdefghijkmnopqrstuvwxyz"
+
+
+def b58decode(t):
+    n = 0
+    for ch in t:
+        i = B58.find(ch)
+        if i < 0:
+            return None
+        n = n * 58 + i
+    body = n.to_bytes((n.bit_length() + 7) // 8, "big")
+    return b"\0" * (len(t) - len(t.lstrip("1"))) + body
+
+
+def first_attr_item(it):
+    return {"id": it["id"], "text": it["attrs"][0] if it["attrs"] else ""}
+
+
+def lit_eng(I, r, pg):
+    texts = {it["attrs"][0] for s_ in pg["sets"] for it in s_ if it["attrs"]}
+    dec = []
+    for t in sorted(texts):
+        try:
+            raw = b58decode(bytes.fromhex(t).decode("ascii"))
+        except UnicodeDecodeError:
+            raw = None
+        if raw is not None and len(raw) in (25, 32):
+            dec.append((t, raw.hex()))
+    fs = vlib.coq_list(r["filters"], lambda f: "(Filter %s %s %s)" % (I.lb(f[0]), OPS[f[1]], I.lb(f[2])))
+    sets = vlib.coq_list(pg["sets"], lambda s_: vlib.coq_list(s_, lambda it: lit_ritem(I, first_attr_item(it))))
+    obs = "(Some (%s, %s))" % (vlib.coq_list(pg["items"], lambda it: lit_ritem(I, first_attr_item(it))), vlib.coq_bool(pg["cursor"] != ""))
+    return "(ECase %d %s %s %s %s %s %s)" % (r["count"], fs, vlib.coq_list(r["attrs"], I.lb),
+                                              vlib.coq_list(dec, lambda p_: "(%s, %s)" % (I.lb(p_[0]), I.lb(p_[1]))),
+                                              sets, vlib.coq_list(pg["mores"], vlib.coq_bool), obs)
+
+
+def strip_empty(pages):
+    pages = list(pages)
+    while pages and not pages[-1]:
+        pages.pop()
+    return pages
+
+
+def engine_vs_union(r):
+    """StorageEngine.Search over the shards vs one search over the union (both real code)."""
+    if r["pre"] != r["refpre"] or r["engerr"] or r["referr"] or r["loop"] or r["rejected"]:
+        return False
+    ep, rp = strip_empty([p["items"] for p in r["pages"]]), strip_empty(r["refpages"])
+    if ep != rp:
+        return False
+    # cursors: equal to the index key the single search returns, except that the last page may (rightly) have none
+    for i in range(len(ep)):
+        ec, rc = r["pages"][i]["cursor"], r["refcur"][i]
+        if ec != rc and not (i == len(ep) - 1 and ec == ""):
+            return False
+    return all(p["cursor"] == "" for p in r["pages"][len(ep):][1:])
 
 
 def tx(h):
@@ -70,9 +150,10 @@ def run(ctx):
     c03.gen_consts(ctx, binp)
     ctx.prove()
     model = ctx.model_ready(["Search/MergeCheck.vo"])
-    nc, nm = (400, 600) if ctx.tier == "quick" else (4000, 12000)
+    nc, nm, ne, nq = (400, 900, 8, 6) if ctx.tier == "quick" else (4000, 12000, 150, 10)
     cursors = ctx.run_json([binp, "merge", str(nc)])
     merges = ctx.run_json([binp, "mergegen", str(nm)])
+    engs = ctx.run_json([binp, "enggen", str(ne), str(nq)])
     if not model:
         ctx.tie(False)
         return
@@ -85,10 +166,18 @@ def run(ctx):
         index.append(("c", off))
     for off in range(0, len(merges), CH):
         ch = merges[off:off + CH]
-        jobs.append(("mrg", PRELUDE + "Definition cases : list mcase := %s.\n" % vlib.coq_list(ch, lit_merge),
-                     {"mref": "merge_ref_mismatches cases"}))
+        I = Intern()
+        body = "Definition cases : list lcase := %s.\n" % vlib.coq_list(ch, lambda c: lit_loop(I, c))
+        jobs.append(("mrg", PRELUDE + I.defs() + body, {"lmodel": "loop_model_mismatches cases", "lref": "loop_ref_mismatches cases"}))
         index.append(("m", off))
-    bad_cm, bad_cr, bad_m = set(), set(), set()
+    epages = [(ri, pi) for ri, r in enumerate(engs) for pi, pg in enumerate(r["pages"]) if not any(pg["sherr"])]
+    for off in range(0, len(epages), CH):
+        ch = epages[off:off + CH]
+        I = Intern()
+        body = "Definition cases : list ecase := %s.\n" % vlib.coq_list(ch, lambda x: lit_eng(I, engs[x[0]], engs[x[0]]["pages"][x[1]]))
+        jobs.append(("eng", PRELUDE + I.defs() + body, {"emodel": "engine_model_mismatches cases"}))
+        index.append(("e", off))
+    bad_cm, bad_cr, bad_lm, bad_lr, bad_em = set(), set(), set(), set(), set()
     for (kind, off), res in zip(index, ctx.coq_eval_many(jobs)):
         if res is None:
             ctx.tie(False)
@@ -96,43 +185,75 @@ def run(ctx):
         if kind == "c":
             bad_cm |= {off + i for i in res["cmodel"]}
             bad_cr |= {off + i for i in res["cref"]}
+        elif kind == "m":
+            bad_lm |= {off + i for i in res["lmodel"]}
+            bad_lr |= {off + i for i in res["lref"]}
         else:
-            bad_m |= {off + i for i in res["mref"]}
+            bad_em |= {epages[off + i][0] for i in res["emodel"]}
+    bad_eu = {i for i, r in enumerate(engs) if not engine_vs_union(r)}
+    bad_acc = {i for i, r in enumerate(engs) if r["rejected"]}
     ctx.tie(not bad_cm)   # CalculateCursor = model calc_cursor
     ctx.tie(not bad_cr)   # rebuilt cursor = index key of the last item and is accepted by PreprocessSearchQuery
-    ctx.tie(not bad_m)    # MergeSearchResults = reference over the union
+    ctx.tie(not bad_lm)   # MergeSearchResults = model merge_results (k-way loop), also on malformed streams
+    ctx.tie(not bad_lr)   # MergeSearchResults = first lim of the sorted union of the shards' lists, exact `more` (RHS of C04_merge)
+    ctx.tie(not bad_em)   # StorageEngine.Search over real shards = model engine_merge of what the shards returned
+    ctx.tie(not bad_eu)   # StorageEngine.Search over real shards = one search over the union, page by page, cursors followed
+    ctx.tie(not bad_acc)  # every cursor the engine returns is accepted on the next request
     for i in sorted(bad_cm | bad_cr)[:6]:
         c = cursors[i]
         ctx.violation({"kind": "cursor", "attr": tx(c["attr"]), "op": OPS[c["op"]], "id": c["id"], "value_text": tx(c["text"]), "stored": c["raw"],
                        "CalculateCursor": "error" if c["err"] else c["cursor"], "index_key": c["key"], "accepted_by_PreprocessSearchQuery": c["accepted"],
                        "disagrees_with": [w for w, s in (("model calc_cursor", bad_cm), ("reference (index key, accepted)", bad_cr)) if i in s]})
-    for i in sorted(bad_m, key=lambda i: sum(len(s) for s in merges[i]["sets"]))[:6]:
+    short = lambda m: (m["id"][:2] + ".." + m["id"][-2:], tx(m["text"]))
+    for i in sorted(bad_lm | bad_lr, key=lambda i: sum(len(s) for s in merges[i]["sets"]))[:6]:
         c = merges[i]
-        ctx.violation({"kind": "merge", "attribute_class": c["kind"], "lim": c["lim"], "mores": c["mores"],
-                       "sets": [[(m["id"][:2] + ".." + m["id"][-2:], tx(m["text"])) for m in s] for s in c["sets"]],
-                       "MergeSearchResults": {"err": c["err"], "more": c["more"], "items": [(m["id"][:2] + ".." + m["id"][-2:], tx(m["text"])) for m in c["res"]]},
-                       "disagrees_with": ["reference ref_merge (sorted de-duplicated union, first lim)"]})
-    hk, hs = {}, {}
+        ctx.violation({"kind": "merge", "attribute_class": c["kind"], "stream": c["class"], "lim": c["lim"], "mores": c["mores"],
+                       "sets": [[short(m) for m in s] for s in c["sets"]],
+                       "MergeSearchResults": {"err": c["err"], "more": c["more"], "items": [short(m) for m in c["res"]]},
+                       "disagrees_with": [w for w, s in (("model merge_results (MergeLoop.v)", bad_lm),
+                                                         ("reference: first lim of the sorted duplicate-free union, exact more", bad_lr)) if i in s]})
+    for i in sorted(bad_em | bad_eu | bad_acc, key=lambda i: (engs[i]["shards"], len(engs[i]["copies"]), len(engs[i]["filters"])))[:6]:
+        r = engs[i]
+        ctx.violation({"kind": "engine", "shards": r["shards"], "copies_per_object": r["copies"],
+                       "filters": [[tx(f[0]), OPS[f[1]], tx(f[2])] for f in r["filters"]], "attrs": [tx(a) for a in r["attrs"]], "count": r["count"],
+                       "engine": {"pre": r["pre"], "error": r["engerr"], "cursor_rejected": r["rejected"], "loop": r["loop"],
+                                  "pages": [[[it["id"][:2] + ".." + it["id"][-2:]] + [tx(a) for a in it["attrs"]] for it in p["items"]] for p in r["pages"]][:8]},
+                       "union": {"pre": r["refpre"], "error": r["referr"],
+                                 "pages": [[[it["id"][:2] + ".." + it["id"][-2:]] + [tx(a) for a in it["attrs"]] for it in p] for p in r["refpages"]][:8]},
+                       "disagrees_with": [w for w, s in (("model engine_merge of the shards' pages", bad_em), ("one search over the union", bad_eu),
+                                                         ("cursor acceptance on the next request", bad_acc)) if i in s]})
+    hk, hs, hc, hsh = {}, {}, {}, {}
     for c in cursors:
         hk["cursor:" + c["kind"]] = hk.get("cursor:" + c["kind"], 0) + 1
     for c in merges:
         hk["merge:" + c["kind"]] = hk.get("merge:" + c["kind"], 0) + 1
         hs[len(c["sets"])] = hs.get(len(c["sets"]), 0) + 1
+        hc[c["class"]] = hc.get(c["class"], 0) + 1
+    for r in engs:
+        hsh[r["shards"]] = hsh.get(r["shards"], 0) + 1
+        k = tx(r["filters"][0][0]) if r["filters"] and r["attrs"] else ("(ID order)")
+        hk["engine:" + k] = hk.get("engine:" + k, 0) + 1
     nontriv = {json.dumps([c["kind"], c["lim"], c["sets"]]) for c in merges if len(c["sets"]) > 1 and len(c["res"]) > 0} | \
-              {json.dumps([c["attr"], c["id"], c["text"]]) for c in cursors}
+              {json.dumps([c["attr"], c["id"], c["text"]]) for c in cursors} | \
+              {json.dumps([r["copies"], r["filters"], r["attrs"], r["count"]]) for r in engs if r["shards"] > 1 and any(p["items"] for p in r["pages"])}
     ctx.cov.update({
-        "evaluations": len(cursors) + len(merges),
+        "evaluations": len(cursors) + len(merges) + len(engs),
         "distinct_nontrivial": len(nontriv),
         "rule": "cursor cases: one item per primary attribute class (plain, numeric incl. +-(2^256-1), owner, parent, first, associate, checksum, split ID) with a value "
-                "and an ID from small pools; merge cases: 2-10 objects with one value each spread over 1-4 result sets (each object in a set with p=0.6, so copies "
-                "overlap), sets sorted in index order and truncated to the limit (1,2,3,1000); 8% with one reversed set (malformed stream: only absence of a crash "
-                "is required). Non-trivial = merge of more than one set with a non-empty result, or any cursor case; distinct by input",
-        "samples": [{"kind": c["kind"], "lim": c["lim"], "mores": c["mores"],
-                     "sets": [[(m["id"][:2] + ".." + m["id"][-2:], tx(m["text"])) for m in s] for s in c["sets"]],
-                     "result": [(m["id"][:2] + ".." + m["id"][-2:], tx(m["text"])) for m in c["res"]], "more": c["more"]}
-                    for c in merges if len(c["sets"]) > 2][:2] +
+                "and an ID from small pools; merge cases: 2-10 objects with one value each spread over 1-4 per-shard lists (membership p in {0,.3,.6,1}, so copies "
+                "overlap and lists may be empty or equal), lists in index order, sets = first lim (1,2,3,5,1000) with `more`; 25% malformed streams (unsorted, wrong "
+                "flags, inner duplicates, attribute not of the class, copies with different values) where only model = implementation is required; engine cases: real "
+                "StorageEngine with 1-4 shards (fstree + metabase) holding 3-11 objects with p=.55 per shard (at least one), one metabase with every object once, "
+                "generated queries (one filter on the primary attribute, optional others) + directed ones (NOT_PRESENT primary, ROOT, checksum, associate, split ID, "
+                "numeric >= min), page sizes 1,2,3,1000, cursors followed through PreprocessSearchQuery. Non-trivial = merge of more than one set with a non-empty "
+                "result, any cursor case, or a multi-shard engine run that returns items; distinct by input",
+        "samples": [{"kind": c["kind"], "stream": c["class"], "lim": c["lim"], "mores": c["mores"], "sets": [[short(m) for m in s] for s in c["sets"]],
+                     "result": [short(m) for m in c["res"]], "more": c["more"]} for c in merges if len(c["sets"]) > 2][:1] +
+                   [{"engine_shards": r["shards"], "copies": r["copies"], "filters": [[tx(f[0]), OPS[f[1]], tx(f[2])] for f in r["filters"]],
+                     "attrs": [tx(a) for a in r["attrs"]], "count": r["count"],
+                     "pages": [[it["id"][:2] + ".." + it["id"][-2:] for it in p["items"]] for p in r["pages"]]} for r in engs if r["shards"] > 2 and len(r["pages"]) > 2][:1] +
                    [{"kind": c["kind"], "value": tx(c["text"]), "cursor": c["cursor"], "index_key": c["key"], "accepted": c["accepted"]} for c in cursors[:1]],
-        "histogram_kind": hk, "histogram_sets_per_merge": hs,
-        "merge_unsorted_inputs": sum(1 for c in merges if c["class"] != "sorted"),
-        "traces_validated_against_impl": len(cursors) + len(merges),
+        "histogram_kind": hk, "histogram_sets_per_merge": hs, "histogram_merge_stream": hc, "histogram_engine_shards": hsh,
+        "engine_requests": sum(len(r["pages"]) for r in engs), "engine_multi_page_runs": sum(1 for r in engs if len(r["pages"]) > 1),
+        "traces_validated_against_impl": len(cursors) + len(merges) + len(engs),
     })
